@@ -72,8 +72,8 @@ Definition no_cred : request :=
   {| r_hdr := HAbsent; r_client_id := None; r_client_secret := None; r_access_token := None;
      r_assertion := None; r_request := None; r_authflag := false |}.
 Definition wit_jwt (a : alg) (k : skey) (iss : pystr) (aud : option (list pystr)) (jti : option pystr) : jwt :=
-  {| j_alg := a; j_key := k; j_iss := Some iss; j_aud := aud; j_exp := Some 1300%Z; j_nbf := None; j_iat := None;
-     j_jti := jti |}.
+  {| j_alg := a; j_key := k; j_iss := Some iss; j_sub := Some iss; j_azp := None; j_cid := None; j_aud := aud;
+     j_exp := Some 1300%Z; j_nbf := None; j_iat := None; j_jti := jti |}.
 
 Theorem C01_request_param_audience_refuted :
   exists cx ep rq now jdb jdb' ai j,
@@ -121,6 +121,36 @@ Theorem C01_processed_as_proved : forall cx ep rq now jdb jdb' c rc,
     /\ credential_ok cx ep rq now jdb jdb' X (ai_method ai).
 Proof. exact processed_as_proved. Qed.
 Print Assumptions C01_processed_as_proved.
+
+(* (2c) The claims INSIDE a signed assertion / request object.  A signed JWT is a record with the key that made
+   the signature (j_key, the signer), iss, and the further claims that can name a client: sub, azp, client_id
+   (j_sub, j_azp, j_cid).  The identity a request accepted through a JWT method is processed under (the client id
+   handed on AND the client_id the parsed request carries) is the JWT's iss, and the signature verifies under
+   the key registered for that very issuer (signed_by_client: the signer is iss) - for EVERY value of sub, azp
+   and client_id claim; a claim naming another client never becomes the identity; and no answer of
+   client_authentication / parse_request (identity, refusal, replay cache) depends on those claims at all. *)
+Theorem C01_assertion_identity : forall cx ep rq now jdb jdb' c rc ai j,
+  parse_request cx ep rq now jdb = (Ok (PGeneric c rc true), jdb') ->
+  client_authentication cx ep rq now jdb = (Ok (Some ai), jdb') ->
+  used_jwt rq (ai_method ai) = Some j ->
+  c = j_iss j /\ rc = j_iss j /\ exists X, j_iss j = Some X /\ signed_by_client cx X j.
+Proof. exact assertion_identity. Qed.
+Print Assumptions C01_assertion_identity.
+
+Theorem C01_subject_never_identity : forall cx ep rq now jdb jdb' c rc ai j B,
+  parse_request cx ep rq now jdb = (Ok (PGeneric c rc true), jdb') ->
+  client_authentication cx ep rq now jdb = (Ok (Some ai), jdb') ->
+  used_jwt rq (ai_method ai) = Some j ->
+  (j_sub j = Some B \/ j_azp j = Some B \/ j_cid j = Some B) -> j_iss j <> Some B ->
+  rc <> Some B /\ c <> Some B.
+Proof. exact subject_never_identity. Qed.
+Print Assumptions C01_subject_never_identity.
+
+Theorem C01_inner_claims_irrelevant : forall cx ep s a c rq now jdb,
+  client_authentication cx ep (rq_with_inner s a c rq) now jdb = client_authentication cx ep rq now jdb
+  /\ parse_request cx ep (rq_with_inner s a c rq) now jdb = parse_request cx ep rq now jdb.
+Proof. exact inner_claims_irrelevant. Qed.
+Print Assumptions C01_inner_claims_irrelevant.
 
 (* userinfo hands a request on only for a bearer token that its lookup resolves to that client; the request's
    own client_id is that client *)
@@ -251,6 +281,29 @@ Example C01_nonvacuous_identity :
     = Ok (PGeneric (Some (PS "c1")) (Some (PS "c1")) true)
   /\ fst (parse_request wit_cx (wit_ep all4) (with_body_id (rq_assert es2) (PS "c1")) 1000 [])
     = Ok (PGeneric (Some (PS "c2")) (Some (PS "c2")) true).
+Proof. vm_compute. repeat split. Qed.
+
+(* c1 signs (own secret), iss = c1, but sub / azp / client_id claim name c2, body client_id c2 / absent: processed
+   as c1; the same with sub absent; without iss (sub = c1 or c2) nothing is accepted; iss = c2 MACed with c1's
+   secret is refused *)
+Definition hs1_inner (s a c : option pystr) := jwt_with_inner s a c hs1.
+Definition hs1_no_iss (s : option pystr) : jwt :=
+  {| j_alg := AlgHS; j_key := KSym (PS "s1"); j_iss := None; j_sub := s; j_azp := None; j_cid := None;
+     j_aud := Some [PS "https://op/token"]; j_exp := Some 1300%Z; j_nbf := None; j_iat := None; j_jti := Some (PS "j8") |}.
+Example C01_nonvacuous_inner_claims :
+  fst (parse_request wit_cx (wit_ep all4) (with_body_id (rq_assert (hs1_inner (Some (PS "c2")) None None)) (PS "c2")) 1000 [])
+    = Ok (PGeneric (Some (PS "c1")) (Some (PS "c1")) true)
+  /\ fst (parse_request wit_cx (wit_ep all4) (rq_assert (hs1_inner (Some (PS "c2")) (Some (PS "c2")) (Some (PS "c2")))) 1000 [])
+    = Ok (PGeneric (Some (PS "c1")) (Some (PS "c1")) true)
+  /\ fst (parse_request wit_cx (wit_ep all4) (rq_assert (hs1_inner None None None)) 1000 [])
+    = Ok (PGeneric (Some (PS "c1")) (Some (PS "c1")) true)
+  /\ fst (parse_request wit_cx (wit_ep all4) (rq_assert (hs1_no_iss (Some (PS "c1")))) 1000 []) = Err UnAuthorizedClient
+  /\ fst (parse_request wit_cx (wit_ep all4) (with_body_id (rq_assert (hs1_no_iss (Some (PS "c2")))) (PS "c2")) 1000 [])
+    = Err UnAuthorizedClient
+  /\ fst (parse_request wit_cx (wit_ep all4)
+            (rq_assert (jwt_with_inner (Some (PS "c1")) None None
+                          (wit_jwt AlgHS (KSym (PS "s1")) (PS "c2") (Some [PS "https://op/token"]) None))) 1000 [])
+    = Err ClientAuthenticationError.
 Proof. vm_compute. repeat split. Qed.
 
 (* a history in which the same assertion is presented three times is accepted exactly once *)
